@@ -642,6 +642,19 @@ func (rs *runState) runC16Layout(idx int, lay c16Layout) *violationT {
 		rs.infraProblem(err.Error())
 		return nil
 	}
+	if idx%2 == 1 {
+		// the plain sibling that declares the types is a symbolic link (the go tool treats it as an ordinary file of the package)
+		real := filepath.Join(root, "linked", "plaintypes.txt")
+		_ = os.MkdirAll(filepath.Dir(real), 0o755)
+		link := filepath.Join(root, pkgDir+"plaintypes.go")
+		if err := os.Rename(link, real); err == nil {
+			rel, _ := filepath.Rel(filepath.Dir(link), real)
+			if err := os.Symlink(rel, link); err != nil {
+				rs.infraProblem(err.Error())
+				return nil
+			}
+		}
+	}
 	// the layout must be valid Go under the co tag before the tool runs (soundness of my generator and
 	// of the reference file): anything wrong here is an infrastructure problem, never a violation
 	if r := runCmd(root, 5*time.Minute, nil, "go", "build", "-gcflags=-e", "-tags", "co", "./..."); r.code != 0 {
@@ -809,6 +822,27 @@ func (rs *runState) runC16Layout(idx int, lay c16Layout) *violationT {
 	}
 	if r := runCmd(root, 10*time.Minute, nil, "go", "build", "./..."); r.code != 0 {
 		return mk("build-after-regenerate", "after regenerating an edited co file the module does not build: "+lastLines(r.out, 8))
+	}
+	// an output of an earlier run that was touched afterwards (licence header prepended by a tool, line endings converted): it is
+	// still recognisably generated, and the next run must produce what a fresh generation produces, whatever is on disk
+	for _, variant := range []string{"header-prepended", "crlf"} {
+		target := filepath.Join(root, pkgDir+"plainuse.go")
+		fresh, err := os.ReadFile(target)
+		if err != nil {
+			break
+		}
+		touched := "// Copyright (c) the authors. All rights reserved.\n\n" + string(fresh)
+		if variant == "crlf" {
+			touched = strings.ReplaceAll(string(fresh), "\n", "\r\n")
+		}
+		_ = os.WriteFile(target, []byte(touched), 0o644)
+		if r := run(); r != nil {
+			return mk("stale-output-run", "cogen failed when an earlier output had been touched ("+variant+"): "+normDiag(r.out))
+		}
+		again, _ := os.ReadFile(target)
+		if string(again) != string(fresh) {
+			return mk("stale-output-"+variant, fmt.Sprintf("an earlier output touched afterwards (%s) changes what the next run derives: %d bytes instead of %d, first lines %q", variant, len(again), len(fresh), firstN(string(again), 160)))
+		}
 	}
 	return nil
 }
@@ -1054,6 +1088,22 @@ $GEN{$NF(n int, g int)}{int}{
 				}
 				i++
 			}
+		}
+	}
+	$RET
+}`},
+	// the same scan with the depth probed INSIDE THE POST STATEMENT of the re-run inner loop value (what the runtime does around
+	// a post statement is not what it does around conditions and bodies)
+	{name: "rows-cols-probe-in-the-post-of-the-rerun-inner-loop", decls: `
+$GEN{$NF(n int, g int)}{int}{
+	i, col := 0, 0
+	for ; i < n; col = 0 {
+		for ; col < 3 && i < n; tr.Probe(1) {
+			if i%g == 0 {
+				$YIELD{i}
+			}
+			i++
+			col++
 		}
 	}
 	$RET
